@@ -32,6 +32,23 @@ CLAIMED = {
    note="Token exchange and cross-grant derivation are outside the model (DESIGN F-C03-b); transitive based_on cascade is proved one level deep + "
         "checked by oracle; cryptography/token codecs idealised as fresh handles (C04 covers resolution).",
    technique="Lean 4 proof: invariants by induction over operation histories of a state-machine model + model/implementation correspondence", ref="6 C03"),
+ "C02": dict(
+   text="Lean theorems over the provider core model: redeem_at_most_once — in every history from the initial state (any users, clients, codes, "
+        "any interleaving of parse_request/process_request steps) the token endpoint delivers tokens for one code at most once (induction over "
+        "histories, using the proved reachable-state invariants Inv/ClsInv/PendInv and the integer-bounded analysis of the `used -= 1` counter "
+        "dance); delivery_facts — a delivering step implies issuing client, matching redirect_uri, code unused/unrevoked/unexpired and live "
+        "grant at minting time; replay_revokes for the OIDC endpoint. Tie: ALL interleavings of 2 and 3 concurrent redemptions + generated "
+        "histories, per-step correspondence of outcome and counters, independent delivery-counting oracle.",
+   note="Interleaving granularity is the API step; thread-level races inside one call are runtime behaviour outside the model. ID-token signing failure path not exercised.",
+   technique="Lean 4 proof: history invariant by induction + decision-logic theorems; exhaustive schedule enumeration for the correspondence", ref="6 C02"),
+ "C05": dict(
+   text="Lean theorems (decision logic) on the provider core model: the grant records request scope filtered by the client's allowed scopes; an "
+        "authorization stores a code carrying exactly that scope; find_scope stays inside the grant's scope; a refresh with an explicit scope "
+        "delivers only if the scope is within the find_scope bound and states exactly that scope. The history invariant scope(token) within "
+        "scope(grant) is checked after every step on every stored token by correspondence and by an independent oracle (together with the "
+        "three-view agreement response/JWT/introspection); its inductive proof is not finished — claimed as partial.",
+   note="PARTIAL: the all-histories invariant is tied by correspondence + oracle, not yet proved; token exchange, client-credentials and password grants not modelled.",
+   technique="Lean 4 proof of the decision logic + model/implementation correspondence on histories with per-step scope projection", ref="6 C05"),
 }
 NOT_YET = {}
 ALL = [f"C{i:02d}" for i in range(1, 21)]
